@@ -14,7 +14,7 @@ def run(ctx):
     ks += [tuple(int(x) for x in e.split(',')) for e in os.environ.get('VF_C20_EXTRA', '').split() if e]
     for k, loss, fl in ks:
         w = k * (loss + 1) + 1
-        ctx.add(Harness('C20_gap_k%d_l%d' % (k, loss) + ('_f%d' % fl if fl else ''), VERIF + '/harness/C20_gap.c', defines=defs + ['K=%d' % k, 'MAXLOSS=%d' % loss, 'MAXFLIGHT=%d' % fl, 'VF_MAXCOPY=40', 'VF_OUTMAX=%d' % (k + 1)], unwind=12,
+        ctx.add(Harness('C20_gap_k%d_l%d' % (k, loss) + ('_f%d' % fl if fl else ''), VERIF + '/harness/C20_gap.c', defines=defs + ['K=%d' % k, 'MAXLOSS=%d' % loss, 'MAXFLIGHT=%d' % fl, 'VF_MAXCOPY=40', 'VF_OUTMAX=%d' % (k + 1)], unwind=max(12, w + 2),
                         unwindset=sessin.US,
                         timeout=900 if ctx.tier == 'quick' else 2400, object_bits=14 if k > 4 else 12, functions=FUN, stubs=sessin.STUBS,
                         bounds='%d process() steps from a continuous session in sync at an arbitrary number n in 1..2^31-257 (FIX SeqNum domain); at most %d own messages lost before each new message; '
